@@ -439,6 +439,17 @@ def run(check, tier, seed, examples=None, shards=None, verbose=True):
             else:
                 extras.setdefault(k, v)
 
+    # --- optional supplement (e.g. coverage-guided byte-level fuzzing): returns cases to classify + coverage
+    sup = getattr(check, "supplement", None)
+    if sup is not None and not errors:
+        try:
+            cases, cov = sup(tier, seed)
+            for case in cases:
+                execute(check, case, total, None, keep_sample=True)
+            extras.update(cov or {})
+        except Exception as e:
+            errors.append("supplement failed: " + "".join(traceback.format_exception(type(e), e, e.__traceback__))[-1500:])
+
     rc = 0
     out = []
     # --- known-finding probes (deterministic reproducers) ---------------------------------
